@@ -6,6 +6,7 @@
 //!   harness hashx    < model.out          (evaluates `(h ..)`/`(s ..)` pre-image trees)
 mod prng;
 mod util;
+mod graphio;
 include!(concat!(env!("OUT_DIR"), "/registry.rs"));
 
 use prng::Rng;
